@@ -1,6 +1,6 @@
 """Claimed level per property (text for MANIFEST.json)."""
 HOOK_COMMITS = ["f85b327"]
-FIX_COMMITS = ["1fe7dcd", "1179cbc", "91f131a", "b2341ca", "1a02c9c"]
+FIX_COMMITS = ["1fe7dcd", "1179cbc", "91f131a", "b2341ca", "1a02c9c", "cb766b4"]
 TB = ("Trusted: Coq 8.16.1 kernel (vm_compute only for finite sweeps/witnesses), ExtrOcamlBasic extraction + OCaml driver and the Rust harness "
       "(correspondence only, bounded by its generators). ")
 LEVELS = {
@@ -59,5 +59,9 @@ LEVELS = {
     "C04": {
         "text": "Proof (Coq): invalid ranges are refused, an accepted request yields exactly one single-epoch proof per epoch, inconsistent list lengths are rejected by the verifier. The audit walk over the latest tree and the auditor's rebuild are modelled and tied to the code; every epoch pair (incl. s = 0, non-adjacent, ending before the latest epoch) is audited against the published hashes after queried epochs.",
         "note": TB + "PARTIAL: the frontier/substitution lemma (walk output rebuilds both root hashes) is not yet a theorem; decided by correspondence + oracle.",
+    },
+    "C09": {
+        "text": "Proof (Coq) over the auditor model: every accepted single-epoch proof has pairwise prefix-free node labels (no shadowing, duplicated or overlapping node set is accepted - the check added by the fix), inconsistent hash/epoch/proof lists are rejected, and the whole list of root hashes is determined by the proof (replacing any hash makes verification fail). The auditor (rebuild in auditor mode, both comparisons, the prefix-free check) is tied to the code on adversarial proofs with freely chosen end hashes; the defect that let a server drop committed leaves was found by this check and repaired.",
+        "note": TB + "PARTIAL: the semantic step (prefix-free + rebuild = canonical trie => every earlier commitment survives) is not yet a theorem; it is decided per run by the ground-truth oracle on the implementation and the rebuild correspondence.",
     },
 }
